@@ -77,3 +77,13 @@ Print Assumptions C13_prop_of_model_cluster_table.
 (* Non-vacuity: a documented two-product file set with a basic rule that targets ADVANCED_MODE. *)
 Example C13_documented_inhabited : documented w_doc_adv = true /\ accepted w_doc_adv = true /\ closed_full w_doc_adv = true.
 Proof. exact doc_inhabited. Qed.
+
+(* Central theorem: on every well-formed input (a decodable record of one of the three modelled operations -- what the
+   generators emit) outside the finding class, the model's output satisfies the executable property the harness evaluates
+   on the implementation's observations. *)
+Theorem C13_central : forall i, wf_C13 i = true -> kf_C13 i = 0 -> prop_C13 i (run_C13 i) = true.
+Proof. exact c13_central. Qed.
+Print Assumptions C13_central.
+(* a generated case (class doc-advmode) is well-formed and outside the finding class *)
+Example C13_wf_generated : let i := (VL [(VZ 1); (VZ 309270901); (VL [(VL [(VB [118;49])]); (VL []); (VL [(VL [(VL [(VB [116;49]); (VL [(VL [(VB [98;46;111;114;103])])])]); (VL [(VB [116;50]); (VL [(VL [(VB [88;46;66;46;79;82;71])])])]); (VL [(VB [116;51]); (VL [(VL [(VB [67;46;110;101;116]); (VB [69;46;100;101;118])])])]); (VL [(VB [116;52]); (VL [(VL [(VB [100;46;105;111;46])])])]); (VL [(VB [116;53]); (VL [(VL [(VB [97;112;105;46;101;46;100;101;118])])])])])]); (VL [(VL [(VL [(VB [112;49]); (VL [(VL [(VB [116;49]); (VB [116;50])])])]); (VL [(VB [112;114;111;100;66]); (VL [(VL [(VB [116;51])])])]); (VL [(VB [112;51]); (VL [(VL [(VB [116;52]); (VB [116;53])])])])])])]); (VL [(VB [118;49]); (VL [(VL [(VB [112;49]); (VL [(VL [(VB [49;46;50;46;51;46;52]); (VL [(VB [49;46;50;46;51;46;52])])]); (VL [(VB [49;57;50;46;49;54;56;46;49;46;49]); (VL [(VB [49;57;50;46;49;54;56;46;49;46;49])])])])]); (VL [(VB [112;114;111;100;66]); (VL [(VL [(VB [49;55;50;46;49;54;46;48;46;57]); (VL [(VB [49;55;50;46;49;54;46;48;46;57])])])])]); (VL [(VB [112;51]); (VL [(VL [(VB [56;46;56;46;56;46;56]); (VL [(VB [56;46;56;46;56;46;56])])])])])])]); (VL [(VL [(VB [118;49])]); (VL [(VL [(VL [(VB [112;114;111;100;66]); (VL [(VL [(VL []); (VL [(VB [47;101])]); (VL [(VB [65;68;86;65;78;67;69;68;95;77;79;68;69])])])])])])]); (VL [(VL [(VL [(VB [112;49]); (VL [(VL [(VL [(VZ 1)]); (VL [(VB [99;49])])]); (VL [(VL [(VZ 0)]); (VL [(VB [99;49])])])])]); (VL [(VB [112;114;111;100;66]); (VL [(VL [(VL [(VZ 1)]); (VL [(VB [99;49])])]); (VL [(VL [(VZ 0)]); (VL [(VB [99;49])])])])])])])]); (VL [(VL [(VB [118;49])]); (VL [(VL [(VL [(VB [99;49]); (VL [(VL [(VB [119;115])]); (VL []); (VL [(VB [47;115;63;120;61;49])]); (VL []); (VL []); (VL [(VZ 3)]); (VL []); (VL [])])])])])])]) in wf_C13 i = true /\ kf_C13 i = 0.
+Proof. vm_compute. split; reflexivity. Qed.
